@@ -44,6 +44,20 @@ func (C18) StubComponents() []string {
 
 var widths = []int{0, 1, 2, 3, 5, 17, 64, 126, 127, 128, 129, 130, 200, 255, 256, 257, 300}
 
+// drawWidth picks a padding width: half the time from the list above, otherwise from the windows
+// just below the 128- and 256-slot allocation steps, one slot at a time, so that the frame pushed
+// next lands on every offset around the end of the allocated stack.
+func drawWidth(tp *tape.Tape) int {
+	switch tp.Draw(4) {
+	case 0, 1:
+		return widths[tp.Draw(len(widths))]
+	case 2:
+		return 96 + tp.Draw(36)
+	default:
+		return 224 + tp.Draw(36)
+	}
+}
+
 func (C18) Run(tp *tape.Tape) core.Result {
 	switch tp.Draw(8) {
 	case 6:
